@@ -241,6 +241,7 @@ def pipe_trace(allowed, expected, data, sizes, faults, iterator=False, via_iter_
         src = CountingSource(data)
     w = F.InspectWrapper(src, expected_format=expected, allowed_formats=allowed or None)
     cur = [0]
+    fed_after_finish = []
     events = {}           # name -> [(chunk index, 'ok' | exception object, complete, match)]
     for i in w._inspectors:
         events[i.NAME] = []
@@ -251,6 +252,9 @@ def pipe_trace(allowed, expected, data, sizes, faults, iterator=False, via_iter_
             def eat(chunk):
                 k = feeds[0]
                 feeds[0] += 1
+                if i._finished:
+                    # the wrapper finished this inspector and still feeds it: not a fault of the inspector
+                    fed_after_finish.append((i.NAME, cur[0]))
                 if (i.NAME, k) in faults:
                     exc = Injected('injected %s@%d' % (i.NAME, k))
                     events[i.NAME].append((cur[0], exc, None, None))
@@ -294,6 +298,7 @@ def pipe_trace(allowed, expected, data, sizes, faults, iterator=False, via_iter_
         else:
             w.close()
     return {'chunks': chunks, 'out': out, 'end': end, 'events': events, 'consumed': consumed,
+            'fed_after_finish': fed_after_finish,
             'errored': {i.NAME for i in w._errored_inspectors},
             'names': sorted(i.NAME for i in w._inspectors), 'finished': w._finished}
 
@@ -574,6 +579,18 @@ def vmdk_family(rng, quick):
                 kw['ver'] = 1 if v != 1 else 2
             add('footer-%s-%r' % (field, v), 'unsafe', **kw)
     add('footer-and-path', 'unsafe', footer=True, extent=EXTENTS_PATH[0])
+    # descriptor areas at and beyond the DESC_MAX_SIZE clamp (2048 sectors): the image really carries
+    # the >= 1 MiB descriptor area (NUL padding, run-length encoded on the wire); a footer whose
+    # desc_num differs from the header's contradicts it, however large both are
+    bigpairs = [(2048, 2049), (4096, 2048), (2049, 4096), (2048, 2 ** 40), (2049, 2048), (2048, 2047), (4096, 1),
+                (2 ** 20, 2 ** 21)]
+    for hn, fn in (bigpairs[:3] if quick else bigpairs):
+        add('footer-bigdesc-%d-f_desc_num-%d' % (hn, fn), 'unsafe', footer=True, desc_num=hn, f_desc_num=fn,
+            body=rng.choice([0, 700]))
+    for hn in ((2048,) if quick else (2048, 2049, 4096)):
+        add('footer-bigdesc-%d-clean' % hn, 'clean', footer=True, desc_num=hn, body=rng.choice([0, 700]))
+    if not quick:
+        add('bigdesc-4096-path', 'unsafe', desc_num=4096, extent=EXTENTS_PATH[0])
     clean = _item('vmdk', 'vmdk/clean', images.vmdk(desc_num=2), 'clean')
     out += _truncs(clean, 512 + 1024, rng)
     foot = _item('vmdk', 'vmdk/footer-clean', images.vmdk(desc_num=2, footer=True, body=600), 'clean')
@@ -828,6 +845,36 @@ def c03_contents(rng, quick):
     return out
 
 
+def c03_priors(rng, quick):
+    """(label, bytes): streams inspected *before* the stream under test, in the same process - a valid image
+    of every format (what a long-running service has seen earlier must not matter)"""
+    out = []
+    for f in ALLF:
+        kw = {'body_len': 40} if f == 'luks' else ({'tail': 8} if f == 'vhdx' else {})
+        out.append(('image-' + f, images.clean(f, **kw)[0]))
+    out.append(('image-vmdk-footer', images.vmdk(footer=True)[0]))
+    out.append(('image-vmdk-text', images.vmdk_text()[0]))
+    out.append(('zeros-2048', bytes(2048)))
+    return out
+
+
+def c03_laters(rng, quick):
+    """(label, bytes): short / empty / other-format streams inspected after a prior one"""
+    out = [('empty', b''), ('one-byte', b'\0'), ('zeros-100', bytes(100)), ('zeros-511', bytes(511)),
+           ('zeros-63', bytes(63)), ('random-300', bytes(rng.getrandbits(8) for _ in range(300))),
+           ('text-200', background('text', 200, rng)), ('ff-40', b'\xff' * 40)]
+    for nm in SIG_NAMES:
+        off, sig = images.SIGNATURES[nm][0]
+        if off < 400:
+            out.append(('short-sig-%s' % nm, overlay(bytes(rng.choice([off + len(sig), 100 + off, 511])), [nm], rng)))
+    out.append(('image-vhd', images.vhd()[0]))
+    out.append(('image-gpt', images.gpt()[0]))
+    out.append(('image-qcow2-513', images.qcow2(total=513)[0]))
+    out.append(('zeros-512', bytes(512)))
+    out.append(('zeros-34816', bytes(34 * K)))
+    return out
+
+
 def c03_huge_contents(rng, quick):
     """streams long enough for the VHDX inspector to decide (>= 256 KiB)"""
     out = []
@@ -895,6 +942,26 @@ def c06_big_streams(rng, quick):
     if not quick:
         out.append(('vhdx-region-count', cnt, images.sizes_from_cuts([H + 64 * K], len(cnt))))
         out.append(('vhdx-good-one-chunk', good, [len(good)]))
+    return out
+
+
+def c06_matching(rng, quick):
+    """(format, label, data, sizes): a clean image of `format` read through a file-like source with
+    zero-length reads in mid-stream and further reads after EOF; with expected_format = format (or
+    'raw', or none) and no fault in that inspector the reader must get every byte and no exception"""
+    out = []
+    fmts = [f for f in ALLF if f != 'vhdx' or not quick]
+    for f in fmts:
+        kw = {'body_len': 8} if f == 'luks' else ({'tail': 8} if f == 'vhdx' else {})
+        data = images.clean(f, **kw)[0]
+        n = len(data)
+        a = min(n, rng.choice([4, 64, 100, 512]))
+        seqs = [[n, 0, 0], [n, 0, 7, 0], [0, n, 0], [a, 0, n - a, 0], [0, 0, a, n - a, 5, 5], [n + 10, 3],
+                [a, 0, 0, n, 0, 0, 1]]
+        if f in ('vhdx', 'iso'):
+            seqs = seqs[:4]
+        for k, sizes in enumerate(seqs if not quick else rng.sample(seqs, 4)):
+            out.append((f, 'match-%s-reads-%d' % (f, k), data, sizes))
     return out
 
 
